@@ -56,4 +56,9 @@ META = {
         note="Trusted: Lean kernel; fact extractor; lock-table model tied by correspondence; call-level atomicity of TryLocks.",
         technique="Lean 4 exclusion theorems over generated RWMutex code + regenerated lock plan + differential lock-table suite",
     ),
+    "C17": dict(
+        text="Lean 4 proofs over definitions regenerated from db.go that the next journal header offset is the least sector multiple at or after the current offset, and over the journal-reader model that, for arbitrary bytes, Next never divides by zero and every accepted header / frame advances the offset (termination), with rollback restoring the pre-image at image level; differential restarts of the real store on interrupted, damaged and random journals, WALs and databases against the byte-level recovery model, plus the exhaustive crash-point suite.",
+        note="Trusted: Lean kernel; translator for integer helpers; byte-level reader models tied by correspondence; the WAL valid-prefix rule is cross-checked by three independent implementations rather than proved.",
+        technique="Lean 4 theorems over regenerated integer helpers and the journal-reader model + differential restart suite on damaged and random files",
+    ),
 }
